@@ -21,12 +21,19 @@ FP = RJSON + '/internal/fp'
 GOENV = dict(os.environ, GOFLAGS='-mod=mod', GOPROXY='off', GOSUMDB='off', GOTOOLCHAIN='local')
 
 
+_DROP_OPTIONAL = [False]
+
+
 def harness_overlay(native=False):
-    """virtual path under /repo -> real harness file under /verif/harness"""
+    """virtual path under /repo -> real harness file under /verif/harness. Files with `_opt_` in
+    their name reference internals that a legitimate refactoring may remove; they are left out
+    when the tree does not compile with them (see build_program)."""
     ov = {}
     hdir = os.path.join(VERIF, 'harness')
     for f in sorted(os.listdir(hdir)):
         if not f.endswith('.go'):
+            continue
+        if _DROP_OPTIONAL[0] and '_opt_' in f:
             continue
         if f.startswith('fp_'):
             ov[os.path.join(REPO, 'internal', 'fp', 'zz_verif_' + f[3:])] = os.path.join(hdir, f)
@@ -50,6 +57,15 @@ def build_program(workdir, scale_depth=None):
         raise SystemExit('ssaexport not built: run setup_cmd')
     r = subprocess.run([exe, '-dir', REPO, '-tags', 'verif', '-overlay', ovf, '-o', out],
                        env=GOENV, capture_output=True, text=True)
+    if r.returncode != 0 and not _DROP_OPTIONAL[0]:
+        # retry without the optional harness files (they name internals the tree may have dropped)
+        _DROP_OPTIONAL[0] = True
+        with open(ovf, 'w') as f:
+            json.dump(harness_overlay(), f)
+        r = subprocess.run([exe, '-dir', REPO, '-tags', 'verif', '-overlay', ovf, '-o', out],
+                           env=GOENV, capture_output=True, text=True)
+        if r.returncode == 0:
+            sys.stderr.write('note: optional harness files left out (tree does not compile with them)\n')
     if r.returncode != 0:
         sys.stderr.write(r.stderr)
         raise ToolError('ssaexport failed (does /repo compile?)')
